@@ -99,9 +99,9 @@ func (n *hnode) RelativeAncestorCtx(distance int32) blockchain.HeaderCtx {
 // fixedTime is the harness-owned blockchain.MedianTimeSource.
 type fixedTime struct{ now int64 }
 
-func (f fixedTime) AdjustedTime() time.Time             { return time.Unix(f.now, 0) }
-func (f fixedTime) AddTimeSample(string, time.Time)     {}
-func (f fixedTime) Offset() time.Duration               { return 0 }
+func (f fixedTime) AdjustedTime() time.Time         { return time.Unix(f.now, 0) }
+func (f fixedTime) AddTimeSample(string, time.Time) {}
+func (f fixedTime) Offset() time.Duration           { return 0 }
 
 // errClass maps an error of the header checks to the rule names of the
 // specification it may stand for (classes only, never message strings).
